@@ -2,7 +2,8 @@
    protocol's byte order (kernel-evaluated on Gen); primitive level: the single `Endian` argument of each primitive
    is used for the count, every element and every length prefix (closed forms), so the LE variant emits the BE
    variant's bytes with each integer reversed. -/
-import FinProto.Obl.Side
+import FinProto.Obl.SEndian
+import FinProto.Obl.SNoOpaque
 import FinProto.Props.PrimLemmas
 namespace FinProto.Obl
 open FinProto
